@@ -2,8 +2,8 @@
 Property C12 — low-index enumeration lists each conjugacy class of subgroups once.
 Property theorems only.
 
-What is proved, for the hand-written model of `coset_tables` and relators that are empty or
-cyclically reduced: the whole property.  The model yields, in depth-first preorder, the
+What is proved, for the hand-written model of `coset_tables` and arbitrary relators over the
+letters `±1..±n`: the whole property.  The model yields, in depth-first preorder, the
 extracted tables of the search states reachable through `children` (traversal, termination by
 an explicit height function); it never panics or exhausts internal fuel
 (`search_never_panics`); every yielded table is valid (`extract_valid`); no two yielded
@@ -12,8 +12,14 @@ lexicographic comparison with a re-based renumbering, two canonical standard iso
 tables are equal); every valid table with at most `k` rows is isomorphic to a yielded one
 (`coset_tables_complete`: the re-basing with the smallest key passes `is_canonical`, the
 search follows it slot by slot, and no state inside it is pruned — `pruning_sound`).
-`coset_tables_complete_irredundant` combines the three.  The tie model ↔ Rust code is the
-differential correspondence of the check (conf/C12.json).
+`coset_tables_complete_irredundant` combines the three.  Relators that are not cyclically
+reduced are handled through stand-in relators (`relator_cores`: cyclically reduced conjugates
+all of whose rotations are among the freely reduced rotations in `expanded_relator_set`).
+`coset_tables_subgroup_classes` restates it in group-theoretic terms: the stabilisers of row 0
+of the yielded tables represent the conjugacy classes of subgroups of index ≤ `k` of Mathlib's
+`PresentedGroup`, each exactly once (valid tables are isomorphic iff their stabilisers are
+conjugate; every subgroup of finite index is the stabiliser of a valid table).
+The tie model ↔ Rust code is the differential correspondence of the check (conf/C12.json).
 -/
 import DSymVerif.Proofs.Backtrack
 import DSymVerif.Proofs.LowIndex
@@ -22,6 +28,8 @@ import DSymVerif.Proofs.Rebase
 import DSymVerif.Proofs.LowIndexValid
 import DSymVerif.Proofs.LowIndexCanon6
 import DSymVerif.Proofs.LowIndexMain
+import DSymVerif.Proofs.LowIndexGeneral
+import DSymVerif.Proofs.LowIndexClasses
 
 namespace DSymVerif.C12
 open DSymVerif DSymVerif.Cosets DSymVerif.LowIndexP DSymVerif.SpecC11 DSymVerif.SpecC12 DSymVerif.RebaseP DSymVerif.CosetInvP DSymVerif.CanonP
@@ -120,19 +128,18 @@ theorem extract_complete (t t' : Table) (h : btExtract (.ok t) = some (.ok t')) 
     t.compact = .ok t' ∧ ∀ k, k < t.len → ∀ g ∈ t.allGens, ∃ d, t.get k g = .ok (some d) :=
   btExtract_complete h
 
-/-- ✔ **`extract_valid`**: for relators over the letters `±1..±n` that are empty or cyclically
-    reduced (`FWP.CR`), every table yielded by the model of `coset_tables`, run with enough
+/-- ✔ **`extract_valid`**: for arbitrary relators over the letters `±1..±n`, every table yielded by the model of `coset_tables`, run with enough
     fuel to exhaust the search tree, passes the Boolean Spec `validTable rels []` — every
     entry defined and in range, inverse letters inverse, every relator closing at every row,
     every row reached from row 0 (transitive) — and has at most `max k 1` rows.
     (`viewTab` is the driver's `tabOfLists`; the search-state invariant behind it is
     `CosetInvP.SInv`, the deduction-queue invariant `CosetInvP.derivedLoop_qinv`.) -/
 theorem extract_valid (n : Nat) (rels : List (List Int)) (k fuel : Nat)
-    (hcr : ∀ ρ ∈ rels, ρ = [] ∨ FWP.CR ρ) (hlet : ∀ w ∈ rels, ∀ x ∈ w, x ∈ allGensOf n)
+    (hlet : ∀ w ∈ rels, ∀ x ∈ w, x ∈ allGensOf n)
     (hf : (BT.dfs (btProblem n (expandedRelatorSet rels) k) (height k) (.ok (Table.new n))).length ≤ fuel) :
     ∀ x ∈ cosetTables n rels k fuel, ∀ t', x = .ok t' →
       ∃ v, t'.view = .ok v ∧ validTable (viewTab v) n rels [] = true ∧ (viewTab v).size ≤ max k 1 :=
-  cosetTables_valid n rels k fuel hcr hlet hf
+  cosetTables_valid_all n rels k fuel hlet hf
 
 /-- ✔ the deduction queue of `derived_table`: if every completely defined relator path closes
     in the parent (`QInv t [] rels`), the same holds in every derived table, because a
@@ -178,29 +185,38 @@ theorem search_states_standard (n : Nat) (rels : List (List Int)) (k : Nat)
     (expandedRelatorSet_letters (S := fun y => y ∈ allGensOf n) (fun y hy => neg_mem_allGensOf hy) hlet)
     hr (fun t0 h0 => by injection h0 with h0; exact h0 ▸ ⟨sinv_new k n rels, cs_new n⟩) t rfl
 
-/-- ✔ **irredundancy**: for relators that are empty or cyclically reduced, no two tables at
+/-- ✔ **irredundancy**: no two tables at
     different positions of the sequence yielded by the model of `coset_tables` are isomorphic
     (`TIso`: a bijection of the rows commuting with every generator) — each conjugacy class
     of subgroups is listed at most once.  Core: two complete standard tables that both pass
     `is_canonical` and are isomorphic have identical entries (`CanonP.iso_canonical_eq`), and
     the children of a state differ in the value of its first free slot. -/
 theorem coset_tables_irredundant (n : Nat) (rels : List (List Int)) (k fuel : Nat)
-    (hcr : ∀ ρ ∈ rels, ρ = [] ∨ FWP.CR ρ) (hlet : ∀ w ∈ rels, ∀ x ∈ w, x ∈ allGensOf n)
+    (hlet : ∀ w ∈ rels, ∀ x ∈ w, x ∈ allGensOf n)
     (hf : (BT.dfs (btProblem n (expandedRelatorSet rels) k) (height k) (.ok (Table.new n))).length ≤ fuel) :
     (cosetTables n rels k fuel).Pairwise
       (fun x y => ∀ t1 t2, x = .ok t1 → y = .ok t2 → ¬ TIso n t1 t2) :=
-  cosetTables_irredundant n rels k fuel hcr hlet hf
+  cosetTables_irredundant_all n rels k fuel hlet hf
+
+/-- ✔ stand-in relators: for arbitrary relators over the letters `±1..±n` there are words over
+    the same letters (cyclically reduced cores, conjugates of the relators) such that every
+    rotation of each of them is in `expanded_relator_set(rels)` — so the deduction queue of
+    `derived_table` closes them — and a table that closes them closes the relators -/
+theorem relator_cores (n : Nat) (rels : List (List Int)) (hlet : ∀ w ∈ rels, ∀ x ∈ w, x ∈ allGensOf n) :
+    ∃ rels', (∀ w ∈ rels', ∀ x ∈ w, x ∈ allGensOf n) ∧ RotClosed rels' (expandedRelatorSet rels) ∧
+      ∀ u : Tab, CosetP.Valid u n rels' [] → CosetP.Valid u n rels [] :=
+  cores_exist n rels hlet
 
 /-- ✔ the model of `coset_tables` never panics and never exhausts the internal fuel of
     `derived_table`/`merge`/`find`: every yielded item is a table; it is complete and its
     `view` is the Spec table of its entries -/
 theorem search_never_panics (n : Nat) (rels : List (List Int)) (k fuel : Nat)
-    (hcr : ∀ ρ ∈ rels, ρ = [] ∨ FWP.CR ρ) (hlet : ∀ w ∈ rels, ∀ x ∈ w, x ∈ allGensOf n)
+    (hlet : ∀ w ∈ rels, ∀ x ∈ w, x ∈ allGensOf n)
     (hf : (BT.dfs (btProblem n (expandedRelatorSet rels) k) (height k) (.ok (Table.new n))).length ≤ fuel) :
     ∀ x ∈ cosetTables n rels k fuel, ∃ t' v, x = .ok t' ∧ t'.view = .ok v ∧
       (viewTab v).size = t'.len ∧
       ∀ j, j < t'.len → ∀ g ∈ allGensOf n, ∃ d, t'.get j g = .ok (some d) ∧ entry (viewTab v) n j g = some d :=
-  cosetTables_ok n rels k fuel hcr hlet hf
+  cosetTables_ok_all n rels k fuel hlet hf
 
 /-- ✔ re-basing (Spec side): from every base point `b` of a valid table the BFS renumbering
     succeeds, is isomorphic to the table with new row 0 = `b`, and is in standard form
@@ -235,17 +251,17 @@ theorem canonical_target_found (maxRows n : Nat) (rels R : List (List Int)) (hro
       ∀ k g d, k < T.len → g ∈ allGensOf n → T.get k g = .ok (some d) → t'.get k g = .ok (some d) :=
   target_found hrot hwr hwR tg
 
-/-- ✔ **completeness**: for relators that are empty or cyclically reduced, every valid table
+/-- ✔ **completeness**: every valid table
     (complete, inverse-consistent, closing every relator at every row, transitive — a
     transitive action of the presented group with a base point) with at most `k` rows is
     isomorphic to the view of one of the tables yielded by the model of `coset_tables`: no
     conjugacy class of subgroups of index ≤ `k` is missed -/
 theorem coset_tables_complete (n : Nat) (rels : List (List Int)) (k fuel : Nat)
-    (hcr : ∀ ρ ∈ rels, ρ = [] ∨ FWP.CR ρ) (hlet : ∀ w ∈ rels, ∀ x ∈ w, x ∈ allGensOf n)
+    (hlet : ∀ w ∈ rels, ∀ x ∈ w, x ∈ allGensOf n)
     (hf : (BT.dfs (btProblem n (expandedRelatorSet rels) k) (height k) (.ok (Table.new n))).length ≤ fuel)
     (A : Tab) (hA : validTable A n rels [] = true) (hk : A.size ≤ k) :
     ∃ t' v σ, (Outcome.ok t') ∈ cosetTables n rels k fuel ∧ t'.view = .ok v ∧ TabIso A (viewTab v) n σ :=
-  cosetTables_complete n rels k fuel hcr hlet hf A hA hk
+  cosetTables_complete_all n rels k fuel hlet hf A hA hk
 
 /-- ✔ **C12 for the model** (`coset_tables_complete_irredundant`): the views of the tables
     yielded by the model of `coset_tables(n, rels, k)` are a system of representatives of the
@@ -255,7 +271,7 @@ theorem coset_tables_complete (n : Nat) (rels : List (List Int)) (k fuel : Nat)
     tables with `j` rows = conjugacy classes of subgroups of index `j`: C11 `validTable_action`
     gives the stabiliser of row 0, of index `j`.) -/
 theorem coset_tables_complete_irredundant (n : Nat) (rels : List (List Int)) (k fuel : Nat)
-    (hcr : ∀ ρ ∈ rels, ρ = [] ∨ FWP.CR ρ) (hlet : ∀ w ∈ rels, ∀ x ∈ w, x ∈ allGensOf n)
+    (hlet : ∀ w ∈ rels, ∀ x ∈ w, x ∈ allGensOf n)
     (hf : (BT.dfs (btProblem n (expandedRelatorSet rels) k) (height k) (.ok (Table.new n))).length ≤ fuel) :
     (∀ x ∈ cosetTables n rels k fuel, ∃ t' v, x = .ok t' ∧ t'.view = .ok v ∧
       validTable (viewTab v) n rels [] = true ∧ (viewTab v).size ≤ max k 1) ∧
@@ -263,7 +279,46 @@ theorem coset_tables_complete_irredundant (n : Nat) (rels : List (List Int)) (k 
       t1.view = .ok v1 → t2.view = .ok v2 → ¬ ∃ σ, TabIso (viewTab v1) (viewTab v2) n σ) ∧
     (∀ A : Tab, validTable A n rels [] = true → A.size ≤ k →
       ∃ t' v σ, (Outcome.ok t') ∈ cosetTables n rels k fuel ∧ t'.view = .ok v ∧ TabIso A (viewTab v) n σ) :=
-  cosetTables_complete_irredundant n rels k fuel hcr hlet hf
+  cosetTables_complete_irredundant_all n rels k fuel hlet hf
+
+/-- ✔ valid tables are isomorphic exactly when the stabilisers of row 0 in the presented group
+    (`CosetP.stab0`, of index = number of rows: C11 `rows_dvd_index`) are conjugate subgroups -/
+theorem iso_iff_conjugate_stabilisers (n : Nat) (rels : List (List Int)) (A B : Tab)
+    (hvA : CosetP.Valid A n rels []) (hvB : CosetP.Valid B n rels []) :
+    (∃ σ, TabIso A B n σ) ↔ SubConj (CosetP.stab0 hvA) (CosetP.stab0 hvB) :=
+  ⟨fun ⟨_, iso⟩ => stab_conj_of_iso iso hvA hvB, iso_of_stab_conj hvA hvB⟩
+
+/-- ✔ every subgroup of finite index of the presented group is the stabiliser of row 0 of a
+    valid table with as many rows as its index (the action on its cosets) -/
+theorem subgroup_has_table (n : Nat) (rels : List (List Int))
+    (hlet : ∀ w ∈ rels, ∀ x ∈ w, x ∈ allGensOf n) (H : Subgroup (CosetSoundP.G n rels))
+    (hj : H.index ≠ 0) :
+    ∃ (A : Tab) (hv : CosetP.Valid A n rels []), A.size = H.index ∧ CosetP.stab0 hv = H :=
+  table_of_subgroup hlet H hj
+
+/-- ✔ **C12 for the model in group-theoretic terms**: the stabilisers of row 0 of the tables
+    yielded by the model of `coset_tables(n, rels, k)` are a system of representatives of the
+    conjugacy classes of subgroups of index at most `k` of `⟨1..n | rels⟩` (Mathlib's
+    `PresentedGroup`) — every item is a valid table whose stabiliser has index = its number of
+    rows `≤ max k 1`, the stabilisers of two items at different positions are not conjugate,
+    and every subgroup of index `1..k` is conjugate to the stabiliser of an item: each
+    conjugacy class of subgroups of index ≤ `k` is listed exactly once -/
+theorem coset_tables_subgroup_classes (n : Nat) (rels : List (List Int)) (k fuel : Nat)
+    (hlet : ∀ w ∈ rels, ∀ x ∈ w, x ∈ allGensOf n)
+    (hf : (BT.dfs (btProblem n (expandedRelatorSet rels) k) (height k) (.ok (Table.new n))).length ≤ fuel) :
+    (∀ x ∈ cosetTables n rels k fuel, ∃ (t' : Table) (v : List (List Int))
+      (hv : CosetP.Valid (viewTab v) n rels []),
+      x = .ok t' ∧ t'.view = .ok v ∧ (CosetP.stab0 hv).index = (viewTab v).size ∧
+        (viewTab v).size ≤ max k 1) ∧
+    (cosetTables n rels k fuel).Pairwise (fun x y => ∀ (t1 t2 : Table) (v1 v2 : List (List Int))
+      (hv1 : CosetP.Valid (viewTab v1) n rels []) (hv2 : CosetP.Valid (viewTab v2) n rels []),
+      x = .ok t1 → y = .ok t2 → t1.view = .ok v1 → t2.view = .ok v2 →
+      ¬ SubConj (CosetP.stab0 hv1) (CosetP.stab0 hv2)) ∧
+    (∀ H : Subgroup (CosetSoundP.G n rels), H.index ≠ 0 → H.index ≤ k →
+      ∃ (t' : Table) (v : List (List Int)) (hv : CosetP.Valid (viewTab v) n rels []),
+        (Outcome.ok t') ∈ cosetTables n rels k fuel ∧ t'.view = .ok v ∧
+          SubConj H (CosetP.stab0 hv)) :=
+  cosetTables_subgroup_classes n rels k fuel hlet hf
 
 /-- ○ `rebase_min_invariant`: the Spec's `canonicalForm` (minimum over all base points of
     the BFS-renumbered table) is a complete invariant of a table up to isomorphism
